@@ -1316,6 +1316,8 @@ impl<'a> Lifter<'a> {
             ("cos", "real") => return Ok(r1("rcos", &recv)),
             ("signum", "real") => return Ok(r1("rsignum", &recv)),
             ("recip", "real") => return Ok(v(format!("(1real / {})", recv.text), "real")),
+            ("max", "int") if args.len() == 1 => return Ok(v(format!("imax({}, {})", recv.text, args[0].text), "int")),
+            ("min", "int") if args.len() == 1 => return Ok(v(format!("imin({}, {})", recv.text, args[0].text), "int")),
             ("max", "real") if args.len() == 1 => return Ok(v(format!("rmax({}, {})", recv.text, args[0].text), "real")),
             ("min", "real") if args.len() == 1 => return Ok(v(format!("rmin({}, {})", recv.text, args[0].text), "real")),
             ("is_sign_negative", "real") => return Ok(v(format!("({} < 0real)", recv.text), "bool")),
